@@ -34,7 +34,7 @@ QUICK_N = 30_000
 THOROUGH_N = 1_000_000
 
 SIZES = ["1", "5", "16", "1k", "2", "3b", "64"]
-CALLABLES = [None, None, None, "true", "true", "upper", "double", "tail", "drop", "list"]
+CALLABLES = [None, None, None, "true", "true", "upper", "double", "tail", "drop", "list", "gen", "iter"]
 
 
 def strategy(ctx):
@@ -77,6 +77,14 @@ def make_cb(kind, tail_state):
         return lambda b: [b[:1], b[1:]] if b else []
     if kind == "tail":
         return lambda b: b if b else b"<TAIL>"
+    if kind == "gen":
+        # the documented return type is Iterable[bytes] | bytes: a one-shot generator is a legal iterable
+        def gen(b):
+            yield b[:2]
+            yield b[2:].upper()
+        return gen
+    if kind == "iter":
+        return lambda b: iter([b] if b else [])
     raise runner.HarnessError(kind)
 
 
@@ -94,6 +102,10 @@ def ref_transform(kind, pieces):
         elif kind == "list":
             out.append(p)
         elif kind == "tail":
+            out.append(p)
+        elif kind == "gen":
+            out.append(p[:2] + p[2:].upper())
+        elif kind == "iter":
             out.append(p)
     if kind == "tail":
         out.append(b"<TAIL>")
